@@ -67,6 +67,23 @@ impl<'a> Cx<'a> {
 /// Checks that hold for every returned dataset on its own.
 fn well_formed(cx: &mut Cx, o: &Obs, which: &str) -> bool {
     let before = cx.v.len();
+    // values from the part of an allocation that lies OUTSIDE the source arrays (sliced owned
+    // arrays are surrounded by poison rows) must never show up in a result
+    if o.rec.iter().flatten().any(|&t| sample_of(t) == POISON_SAMPLE) {
+        cx.fail("records_from_outside_the_array", format!("{}: returned records {:?} contain rows of the allocation that lie outside the source array (poison sample id {})", which, o.rec, POISON_SAMPLE));
+    }
+    if o.tgt.iter().flatten().any(|&l| l == POISON_LABEL) {
+        cx.fail(
+            "targets_from_outside_the_array",
+            format!("{}: returned targets {:?} ({} rows for {} records) contain entries of the allocation that lie outside the source target array (poison label {})", which, o.tgt, o.tn, o.n, POISON_LABEL),
+        );
+    }
+    if o.w.iter().any(|&x| x == POISON_WEIGHT) {
+        cx.fail("weights_from_outside_the_array", format!("{}: returned weights {:?} contain entries of the allocation that lie outside the source weight array (poison weight {})", which, o.w, POISON_WEIGHT));
+    }
+    if cx.v.len() != before {
+        return false;
+    }
     if o.tn != o.n {
         cx.fail("targets_rows_differ_from_records_rows", format!("{}: records have {} rows, targets have {}", which, o.n, o.tn));
     }
@@ -330,7 +347,17 @@ pub fn step(parent: &Model, act: &Act, history: &[String]) -> StepOut {
             // ELEMENT count) instead of the number of samples; with >= 2 target columns the record
             // chunks are then too few and either the concatenation of no chunks or the chunk swap fails
             let multi_fold = matches!(act, Act::Fold { .. }) && p.t2 && p.nt >= 2 && (msg.contains("Unsupported") || msg.contains("index out of bounds"));
-            let shape = if multi_fold { "panic_multi_column_targets" } else { "panic" };
+            // closed form of a second failure: the owned split takes `into_raw_vec()` of records and
+            // targets, i.e. the WHOLE allocation; for a row-major owned array that is a slice of a
+            // larger allocation the second `from_shape_vec` gets a buffer of the wrong length
+            let sliced_split = matches!(act, Act::SplitOwned { .. }) && (p.pad_rec || p.pad_tgt) && msg.contains("ShapeError");
+            let shape = if multi_fold {
+                "panic_multi_column_targets"
+            } else if sliced_split {
+                "panic_on_row_major_array_sliced_from_larger_allocation"
+            } else {
+                "panic"
+            };
             cx.fail(shape, format!("{:?} on a dataset of {} samples x {} features with {} target column(s) panicked: {}", act, n, p.nf, p.nt, msg));
             out.viols = cx.v;
             return out;
@@ -352,7 +379,21 @@ pub fn step(parent: &Model, act: &Act, history: &[String]) -> StepOut {
             let n1 = split_point(n, ratio).min(n);
             if !count_mismatch(&mut cx, res.outs.len(), 2, "parts") {
                 let (a, b) = (&res.outs[0], &res.outs[1]);
-                if a.n != n1 || b.n != n - n1 {
+                // closed form: weights that are a slice of a larger allocation are split by
+                // `into_raw_vec()` of the whole allocation (first n1 entries of the allocation / the rest)
+                let alloc: Vec<f32> = match (&p.w, p.pad_w && matches!(act, Act::SplitOwned { .. })) {
+                    (Some(w), true) => std::iter::repeat(POISON_WEIGHT).take(PAD_LEAD).chain(w.iter().cloned()).chain(std::iter::repeat(POISON_WEIGHT).take(PAD_TRAIL)).collect(),
+                    _ => vec![],
+                };
+                if !alloc.is_empty() && a.n == n1 && b.n == n - n1 && a.w[..] == alloc[..n1] && b.w[..] == alloc[n1..] {
+                    cx.fail(
+                        "sliced_weights_split_by_whole_allocation",
+                        format!(
+                            "ratio {} of {} samples whose weights {:?} are a slice of the allocation {:?}: the parts carry weights {:?} and {:?} (first {} entries of the allocation / the rest) instead of {:?} and {:?}",
+                            ratio, n, p.w.as_ref().unwrap(), alloc, a.w, b.w, n1, &p.w.as_ref().unwrap()[..n1], &p.w.as_ref().unwrap()[n1..]
+                        ),
+                    );
+                } else if a.n != n1 || b.n != n - n1 {
                     let nd = split_point_double(n, ratio);
                     let shape = if a.n == nd && b.n == n - nd { "size_from_double_precision_product" } else { "wrong_sizes" };
                     cx.fail(
@@ -492,6 +533,10 @@ pub fn step(parent: &Model, act: &Act, history: &[String]) -> StepOut {
         Act::SampleIter { .. } => {
             if !count_mismatch(&mut cx, res.pairs.len(), n, "samples") {
                 for (i, (x, y)) in res.pairs.iter().enumerate() {
+                    if x.iter().any(|&t| sample_of(t) == POISON_SAMPLE) || y.iter().any(|&l| l == POISON_LABEL) {
+                        cx.fail("records_from_outside_the_array", format!("item {}: ({:?}, {:?}) comes from outside the source arrays", i, x, y));
+                        break;
+                    }
                     if x != &p.rec[i] {
                         cx.fail("wrong_rows", format!("item {}: expected record {:?}, got {:?}", i, p.rec[i], x));
                         break;
@@ -551,6 +596,21 @@ pub fn step(parent: &Model, act: &Act, history: &[String]) -> StepOut {
             let mut m = o.to_model();
             if m.n() <= 1 || m.nf <= 1 {
                 m.colmajor = false;
+            }
+            // which results still live in the source's allocations: into_single_target reshapes the
+            // target array in place and moves records; map_targets on the owned value moves records
+            // and weights; `view` is the same value. Everything else allocates fresh arrays.
+            match act {
+                Act::IntoSingleTarget | Act::View => {
+                    m.pad_rec = p.pad_rec;
+                    m.pad_tgt = p.pad_tgt;
+                    m.pad_w = p.pad_w && m.w.is_some();
+                }
+                Act::MapTargets { view: false } => {
+                    m.pad_rec = p.pad_rec;
+                    m.pad_w = p.pad_w && m.w.is_some();
+                }
+                _ => {}
             }
             if m.n() > 0 && (m.rec != p.rec || m.tgt != p.tgt) {
                 out.effective = true;
